@@ -21,7 +21,8 @@ CONSTANTS Producers, K, Shapes, MaxFaults, MaxCrashes, MaxIdxLoss, InlineAt, Int
           DevOrphanNotSkipped,   \* restart fails on any segment without index
           DevOrphanAlwaysSkipped,\* restart silently skips any segment without index
           DevNoFlushOnAck,       \* reply success without Flush
-          DevTolerateLostIdx     \* restart keeps a committed segment whose index object is gone, without index entries
+          DevTolerateLostIdx,    \* restart keeps a committed segment whose index object is gone, without index entries
+          DevRestoreCountsOrphan \* restart takes the log end from the last listed segment object, even one skipped as an orphan
 VARIABLES mem, up, rfail, restarted, s3seg, s3idx, storeNext, pc, stage, req, art, segUp, idxUp, pubVal, sent,
           faults, crashes, acked, hwReg, nextReg, hwMax, lost, hist
 vars == <<mem, up, rfail, restarted, s3seg, s3idx, storeNext, pc, stage, req, art, segUp, idxUp, pubVal, sent,
@@ -189,7 +190,7 @@ Restart ==
          bad == IF DevOrphanAlwaysSkipped \/ DevTolerateLostIdx THEN FALSE
                 ELSE \E i \in 1..Len(objs) : noIdx(objs[i]) /\ (DevOrphanNotSkipped \/ objs[i].base < start)
          good == SelectSeq(objs, LAMBDA o : ~noIdx(o) \/ (DevTolerateLostIdx /\ o.base < start))
-         last == IF good = <<>> THEN -1 ELSE good[Len(good)].last
+         last == IF good = <<>> THEN -1 ELSE IF DevRestoreCountsOrphan THEN objs[Len(objs)].last ELSE good[Len(good)].last
          nx == IF last >= start /\ ~DevRestoreKeepsOffset THEN last + 1 ELSE start
      IN /\ rfail' = bad
         /\ up' = ~bad
